@@ -48,55 +48,86 @@ pub fn run(ctx: &mut Ctx) -> R {
     }
     let writes = ctx.disk.writes();
     let full = ctx.disk.data(file);
-    // sanity: before finalize the encoder must only append
-    let mut expect = off as u64;
-    for (_, o, d) in &writes {
-        if *o != expect {
-            ctx.skip_foreign("encoder seeked before finalize; append-stream model does not apply");
+    // Where the frames are comes from a finalized twin of the same encode (finalize neither moves nor
+    // rewrites frames — C09), parsed by refflac; what they contain comes from the PCM model.
+    let twin_disk = Disk::new(&ctx.ch, false);
+    let tf = twin_disk.create(vec![0xA5; off]);
+    let tsink = wrap_sink(twin_disk.open(tf, Benign::none()).set_pos(off as u64), wcap);
+    if encode(tsink, &cfg, &pcm, kind, &chunks, declared, EndMode::Finalize, &[], &mut || {}).is_err() {
+        ctx.skip_foreign("finalized twin failed to encode (C01's matter)");
+        return Ok(());
+    }
+    let twin = twin_disk.data(tf);
+    let (audio_start, ends): (usize, Vec<(usize, usize, usize)>) = match refflac::parse_stream(&twin, off) {
+        Ok(s) if matches!(s.end, StreamEnd::Clean) => (s.meta.audio_start, s.frames.iter().map(|f| (f.start, f.end, f.block_size as usize)).collect()),
+        other => {
+            ctx.skip_foreign(format!("refflac cannot parse the finalized twin ({:?}) — C02's matter", other.map(|s| s.end)));
             return Ok(());
         }
-        expect += d.len() as u64;
-    }
-    // frame boundaries of the complete append stream, from refflac
-    let (audio_start, ends): (usize, Vec<(usize, usize)>) = match refflac::parse_stream(&full, off) {
-        Ok(s) => {
-            if let StreamEnd::Invalid(at, why) = &s.end {
-                ctx.skip_foreign(format!("refflac cannot parse the append stream at {at}: {why}"));
-                return Ok(());
-            }
-            (s.meta.audio_start, s.frames.iter().map(|f| (f.end, f.block_size as usize)).collect())
-        }
-        Err(_) => (usize::MAX, Vec::new()),
     };
-    // crash points
-    let mut points: Vec<usize> = Vec::new();
-    let mut acc = off;
-    points.push(acc);
-    for (_, _, d) in &writes {
-        acc += d.len();
-        points.push(acc);
-    }
+    // media states: after every write event, and torn inside each write for small outputs
     let byte_limit = if ctx.tier == Tier::Thorough { 4096 } else { 1500 };
-    if full.len() - off <= byte_limit {
+    let torn = full.len() - off <= byte_limit;
+    if torn {
         probe("c14_byte_granularity");
-        points.extend(off..=full.len());
     }
-    points.sort_unstable();
-    points.dedup();
+    let mut states: Vec<(Vec<u8>, Vec<bool>, String)> = Vec::new();
+    let mut med: Vec<u8> = vec![0xA5; off];
+    let mut cov: Vec<bool> = vec![true; off];
+    states.push((med.clone(), cov.clone(), "before the first write".into()));
+    let mut seeked = false;
+    for (wi, (_, o, d)) in writes.iter().enumerate() {
+        let o = *o as usize;
+        if o != med.len() {
+            seeked = true;
+        }
+        let upto: Vec<usize> = if torn && d.len() > 1 { (1..=d.len()).collect() } else { vec![d.len()] };
+        for j in upto {
+            let mut m2 = med.clone();
+            let mut c2 = cov.clone();
+            if m2.len() < o + j {
+                m2.resize(o + j, 0);
+                c2.resize(o + j, false);
+            }
+            m2[o..o + j].copy_from_slice(&d[..j]);
+            for x in &mut c2[o..o + j] {
+                *x = true;
+            }
+            if j == d.len() {
+                med = m2.clone();
+                cov = c2.clone();
+            }
+            states.push((m2, c2, format!("after {} of {} bytes of write #{wi} at offset {o}", j, d.len())));
+        }
+    }
+    if seeked {
+        probe("c14_encoder_seeked_before_finalize");
+    }
     let rot = ch.draw("c14.rot", 11) as usize;
     let pat_seed = ch.raw("c14.pattern");
     let c = cfg.channels as usize;
-    for (pi, &cut) in points.iter().enumerate() {
-        let prefix = full[..cut].to_vec();
-        let complete: usize = ends.iter().take_while(|(e, _)| *e <= cut).map(|(_, n)| *n).sum();
+    for (pi, (prefix, covered, what)) in states.iter().enumerate() {
+        let cut = prefix.len();
+        // frames whose every byte has reached the medium, counted from the first frame on
+        let mut complete = 0usize;
+        let mut nframes = 0usize;
+        for (st, en, n) in &ends {
+            if *en <= covered.len() && covered[*st..*en].iter().all(|b| *b) {
+                complete += n;
+                nframes += 1;
+            } else {
+                break;
+            }
+        }
         let want = &pcm.inter[..(complete * c).min(pcm.inter.len())];
-        if cut < audio_start.min(full.len()) {
+        if cut < audio_start {
             probe("c14_crash_in_metadata");
-        } else if ends.iter().any(|(e, _)| *e == cut) {
+        } else if ends.iter().any(|(_, e, _)| *e == cut) {
             probe("c14_crash_on_frame_boundary");
         } else {
             probe("c14_crash_inside_frame");
         }
+        let prefix = prefix.clone();
         let which = (pi + rot) % 11;
         let d = Disk::new(&ctx.ch, ctx.trace);
         let pf = d.create(prefix);
@@ -117,14 +148,14 @@ pub fn run(ctx: &mut Ctx) -> R {
             Err(_) => {
                 let (loc, msg) = take_panic().unwrap_or_default();
                 let v = crate::classify_panic(&loc, &msg);
-                ctx.adopt_trace(&d, &format!("crash at byte {cut}, reader {label}"));
-                return viol(v.class, format!("crash at byte {cut} of {}: reader {label} panicked: {msg}", full.len()));
+                ctx.adopt_trace(&d, &format!("crash {what}, reader {label}"));
+                return viol(v.class, format!("crash {what}: reader {label} panicked: {msg}"));
             }
             Ok((Some(r), _)) => {
                 ctx.extra_events += d.seq();
                 ctx.eval_fp(mix(d.fp(), r.samples.len() as u64), true);
                 if r.samples != want {
-                    ctx.adopt_trace(&d, &format!("crash at byte {cut}, reader {label}"));
+                    ctx.adopt_trace(&d, &format!("crash {what}, reader {label}"));
                     let class = if r.samples.len() < want.len() && want.starts_with(&r.samples) {
                         "crash-prefix-undecodable"
                     } else {
@@ -133,9 +164,7 @@ pub fn run(ctx: &mut Ctx) -> R {
                     return viol(
                         class,
                         format!(
-                            "crash at byte {cut} of {} (metadata ends at {audio_start}): {} complete frames = {} samples, reader {label} delivered {} (end: {:?})",
-                            full.len(),
-                            ends.iter().take_while(|(e, _)| *e <= cut).count(),
+                            "crash {what} (medium holds {cut} bytes, metadata ends at {audio_start}): {nframes} completely written frames = {} samples, reader {label} delivered {} (end: {:?})",
                             want.len(),
                             r.samples.len(),
                             r.err
